@@ -44,12 +44,51 @@ func C14siblings(p *load.Program, run *report.Run) {
 	run.Rule("argument-decoders-agree", "circuit.parseIOArg (circuit files) and circuit.receiveArgument (streaming session) decode the same description — name, type text, size, members — and must restore the same fields of the IOArg, including the sizes the type text does not carry")
 	var sets [2]map[string]bool
 	names := []string{"parseIOArg", "receiveArgument"}
+	fnsByRole := [2]*ssa.Function{}
+	// the two decoders by role: the self-recursive function returning an IOArg that the file parser reaches,
+	// and the one the streaming evaluator reaches (whatever they are called, function or method)
+	for i, root := range []string{"ParseMPCLC", "StreamEvaluator"} {
+		rf, err := p.Func("circuit", root)
+		if err != nil {
+			continue
+		}
+		var cands []*ssa.Function
+		for fn := range p.ModuleReach(rf) {
+			if fn.Blocks == nil || fn.Pkg == nil || fn.Pkg.Pkg.Path() != load.Module+"/circuit" {
+				continue
+			}
+			res := fn.Signature.Results()
+			if res.Len() == 0 || !strings.HasSuffix(res.At(0).Type().String(), "/circuit.IOArg") {
+				continue
+			}
+			self := false
+			for _, b := range fn.Blocks {
+				for _, ins := range b.Instrs {
+					if c, ok := ins.(*ssa.Call); ok && c.Call.StaticCallee() == fn {
+						self = true
+					}
+				}
+			}
+			if self {
+				cands = append(cands, fn)
+			}
+		}
+		if len(cands) == 1 {
+			fnsByRole[i] = cands[0]
+			names[i] = cands[0].Name()
+		}
+	}
 	for i, name := range names {
-		fn, err := p.Func("circuit", name)
+		fn := fnsByRole[i]
+		var err error
+		if fn == nil {
+			fn, err = p.Func("circuit", name)
+		}
 		if err != nil {
 			run.Undecided("argument-decoders-agree", "circuit."+name, "", err.Error())
 			return
 		}
+		fnsByRole[i] = fn
 		sets[i] = map[string]bool{}
 		for _, b := range fn.Blocks {
 			for _, ins := range b.Instrs {
@@ -75,7 +114,7 @@ func C14siblings(p *load.Program, run *report.Run) {
 		for f := range sets[1-i] {
 			if !sets[i][f] {
 				okAll = false
-				fn, _ := p.Func("circuit", names[i])
+				fn := fnsByRole[i]
 				run.Violate("argument-decoders-agree", "circuit."+names[i]+"/"+f, p.Rel(fn.Pos()),
 					fmt.Sprintf("%s restores %s, %s does not: the same description decodes to different signatures", names[1-i], f, names[i]), nil)
 			}
